@@ -109,3 +109,16 @@ class Kill(Command):
                 props['signum'] = to_signum(props['signum'])
         except ValueError:
             raise MessageError('signal invalid')
+
+        if props.get('graceful_timeout') is not None:
+            # found out only after the signal has been sent otherwise, with
+            # the process left flagged as being stopped for ever
+            timeout = props['graceful_timeout']
+            try:
+                if isinstance(timeout, bool):
+                    raise ValueError(timeout)
+                props['graceful_timeout'] = float(timeout)
+            except (TypeError, ValueError):
+                raise MessageError('graceful_timeout invalid')
+            if not props['graceful_timeout'] >= 0:
+                raise MessageError('graceful_timeout invalid')
